@@ -68,7 +68,12 @@ func ZZ_C18_Snapshots() {
 			zzrt.Reach("duplicate-entry")
 		}
 		evBefore := len(ze.Events())
+		if step == N-1 && zzrt.Param("ROT") == 1 {
+			// the last snapshot is processed under every rotation of the iteration order of the agent's maps
+			zzrt.MapRotate(zzrt.Choose(U))
+		}
 		a.Receive(actor.ZZContext(ze.E, c.agentPID, &Members{Members: snap}, nil))
+		zzrt.MapRotate(0)
 
 		// view == snapshot by ID
 		n := 0
